@@ -235,7 +235,20 @@ class Gen:
             return
         p, a = r.choice(cands)
         rank = self.props[p]['rank']
-        leaves = [q for q, d in self.props.items() if d['rank'] < rank and q not in (p, a)]
+        # what the probe's write to `a` can reach must stay clear of the new expression (and of every other writing observer): an
+        # observer of p that - directly or through bindings and further observers - changes an input of p's own binding from inside
+        # p's notification is a dependency cycle made by user code, which the library does not detect and C02 does not speak about
+        dep = {a}
+        grew = True
+        while grew:
+            grew = False
+            for q, d in self.props.items():
+                if q not in dep and d['bound'] and any(x in dep for x in d.get('inputs', [])):
+                    dep.add(q)
+                    grew = True
+        if (dep - {p}) & (self.ahosts | {host for host, _ in self.robs}):
+            return
+        leaves = [q for q, d in self.props.items() if d['rank'] < rank and q != p and q not in dep]
         e = self.expr(leaves, r.choice([0, 1, 2]))
         lab = self.next_label
         self.next_label += 1
@@ -302,6 +315,9 @@ class Gen:
             d = self.next_prop
             self.next_prop += 1
             self.emit(f"pmovector {s} {d}")
+            for q in self.props.values():
+                if 'inputs' in q:
+                    q['inputs'] = [d if x == s else x for x in q['inputs']]
             for ro in self.robs:
                 if ro[0] == s:
                     ro[0] = d
@@ -317,6 +333,9 @@ class Gen:
             if d is None:
                 return
             self.emit(f"pmoveassign {d} {s}")
+            for q in self.props.values():
+                if 'inputs' in q:
+                    q['inputs'] = [d if x == s else x for x in q['inputs']]
             self.robs = [ro for ro in self.robs if ro[0] != d]      # the observers of the overwritten property are gone
             self.ahosts.discard(d)
             self.about_hosts.discard(d)
